@@ -30,6 +30,10 @@ type Act struct {
 	Fsv  *FS    `json:"fsv,omitempty"`
 	Text hx.BS  `json:"text,omitempty"`
 	Md   string `json:"md,omitempty"`
+	// augf: D; subf: Gl, Text (the regex as the specification renders it), Rp
+	D  int   `json:"d,omitempty"`
+	Gl bool  `json:"gl,omitempty"`
+	Rp hx.BS `json:"rp,omitempty"`
 }
 
 type Obs struct {
@@ -108,11 +112,21 @@ func stmt(a Act) (string, []byte, bool) {
 		return "rd(NF)", nil, true
 	case "incr":
 		return fmt.Sprintf("$(%d)++", a.K), nil, true
+	case "augf":
+		return fmt.Sprintf("$(%d) += %d", a.K, a.D), nil, true
+	case "subf":
+		f := "sub"
+		if a.Gl {
+			f = "gsub"
+		}
+		return fmt.Sprintf("rd(%s(/%s/, %s, $(%d)))", f, a.Text.Bytes(), hx.AwkString(a.Rp.Bytes()), a.K), nil, true
+	case "getlinef":
+		return fmt.Sprintf("getline $(%d)", a.K), append(a.S.Bytes(), '\n'), true
 	}
 	return "", nil, false
 }
 
-func isRead(op string) bool { return op == "getf" || op == "getnf" }
+func isRead(op string) bool { return op == "getf" || op == "getnf" || op == "subf" }
 
 func argClass(a Act) string {
 	src := a.Src
@@ -210,7 +224,7 @@ func nontrivial(h *History) bool {
 		switch st.Act.Op {
 		case "read", "set0":
 			hasRec = true
-		case "setf", "setnf", "incr", "setfs", "setofs", "setom":
+		case "setf", "setnf", "incr", "augf", "subf", "getlinef", "setfs", "setofs", "setom":
 			hasMut = true
 		}
 	}
